@@ -12,6 +12,7 @@ import Geo.Spec.Euclid
 import Geo.Spec.Shapes
 import Geo.Shapes
 import Geo.Gen.Curve
+import Geo.Gen.Point
 open Geo
 
 def absLeQ (a b : Q) : Bool := decide (Gauss.normSq a ≤ Gauss.normSq b)
@@ -321,6 +322,15 @@ def dispatch (op : String) (args : List String) : String :=
     | some c0, some c1, some c2, some r =>
       "ok " ++ showTens ⟨[4, 4], ((List.range 4).flatMap fun i => (List.range 4).map fun j => Gen.sphere_m c0 c1 c2 r i j).toArray⟩
     | _, _, _, _ => "bad-op"
+  -- the case analyses regenerated from LineTensor.base_point / direction (2-D), evaluated exactly
+  | "gen.basepoint2", [l] | "gen.direction2", [l] => match parseRVec l with
+    | some v =>
+      let f : Nat → Rat := fun k => v.getD k 0
+      let r := if op == "gen.basepoint2"
+        then Gen.line_base_point (decide (f (Gen.line_base_point_masks.getD 0 0) = 0)) (decide (f (Gen.line_base_point_masks.getD 1 0) = 0)) f
+        else Gen.line_direction (decide (f (Gen.line_direction_masks.getD 0 0) = 0)) (decide (f (Gen.line_direction_masks.getD 1 0) = 0)) f
+      "ok " ++ showRVec [r 0, r 1, r 2]
+    | none => "bad-op"
   | "ixmap", r :: comps => match r.toNat?, comps.mapM parseIx with
     | some r, some cs => showMapping (indexMapping r cs)
     | _, _ => "bad-op"
